@@ -199,16 +199,33 @@ func buildCorpus(e *Env, seed uint64, nMut int, long bool) (*common.Corpus, corp
 		}
 		add(string(s), common.FMutated)
 	}
-	// 6. long inputs: one call spans thousands of steps
+	// 6. long inputs in size classes (length thresholds in the code under test are
+	// usually powers of two): one call spans thousands of steps; every class in a
+	// positive-early, a benign, a SQLi-positive-early and an attribute-context flavour
 	if long {
-		longPats := []string{"1 union select ", "<a href=x ", "a' or 1=1 -- ", "<x y=z>", "/*! 1 */ ", "\" onload=x ", "1,", "<![CDATA[x]]>", "&#x6A;av"}
+		filler := "lorem ipsum dolor sit amet consectetur adipiscing elit sed do eiusmod tempor "
+		fill := func(head string, n int) string {
+			var b strings.Builder
+			b.WriteString(head)
+			for b.Len() < n {
+				b.WriteString(filler)
+			}
+			return b.String()[:n]
+		}
+		for _, n := range []int{600, 1300, 2700, 5000, 9000, 17000, 33000, 66000} {
+			add(fill("<script>alert(1)</script> ", n), common.FLong)
+			add(fill("", n), common.FLong)
+			add(fill("1 union select 1,2,3 from t -- ", n), common.FLong)
+			add(fill("x\" onmouseover=alert(1) y=\"", n), common.FLong)
+		}
+		longPats := []string{"1 union select ", "<a href=x ", "a' or 1=1 -- ", "/*! 1 */ ", "&#x6A;av"}
 		for i, p := range longPats {
-			n := 10000 + 3000*i
+			n := 10000 + 6000*i
 			add(strings.Repeat(p, n/len(p)+1), common.FLong)
 		}
-		for k := 0; k < 4 && len(pool) > 0; k++ {
+		for k := 0; k < 3 && len(pool) > 0; k++ {
 			var b strings.Builder
-			for b.Len() < 12000+4000*k {
+			for b.Len() < 12000+9000*k {
 				b.WriteString(pool[r.Intn(len(pool))])
 				b.WriteByte(' ')
 			}
